@@ -47,6 +47,7 @@ import (
 	"fmt"
 	"io"
 	"strings"
+	"testing/iotest"
 	"time"
 
 	"seehuhn.de/go/postscript/psenc"
@@ -172,6 +173,11 @@ func body(fams []t1fonts.Family, famIdx int) func(c *mc.Ctx, item int) mc.Verdic
 			rd = rs
 		case 5:
 			type1.Read(bytes.NewReader(sloppyFont))
+		case 6:
+			// a source that hands the file over in small pieces (a pipe, a network connection, a buffered reader near its block boundary)
+			rd = iotest.HalfReader(struct{ io.Reader }{bytes.NewReader(buf.Bytes())})
+		case 7:
+			rd = iotest.OneByteReader(bytes.NewReader(buf.Bytes()))
 		}
 		got, err := type1.Read(rd)
 		c.Step()
